@@ -26,6 +26,25 @@ def copy_repo(dst):
 
 def run_checks(repo, work, props):
     res = {}
+    if sorted(props) == all_props():
+        # one process for all properties: every rule is computed once and shared (check.py caches rule results per process)
+        r = subprocess.run([sys.executable, os.path.join(VERIF, "check.py"), "--all", "--repo", repo, "--work", work],
+                           capture_output=True, text=True)
+        for pid in props:
+            res[pid] = {"rc": 2 if r.returncode == 2 else 0, "keys": [], "err": r.stderr[-2000:] if r.returncode == 2 else ""}
+        if r.returncode not in (0, 1, 2):
+            for pid in props:
+                res[pid]["rc"] = 2
+                res[pid]["err"] = (r.stderr or r.stdout)[-2000:]
+        cur = None
+        for l in r.stdout.splitlines():
+            if l.startswith("VIOLATION property="):
+                cur = l.split("property=")[1].split()[0]
+                if cur in res:
+                    res[cur]["rc"] = 1
+            elif l.startswith("  ") and ":" in l and " @ " in l and cur in res:
+                res[cur]["keys"].append(l.strip().split(" @ ")[0])
+        return res
     for pid in props:
         r = subprocess.run([sys.executable, os.path.join(VERIF, "check.py"), pid, "--repo", repo, "--work", work],
                            capture_output=True, text=True)
